@@ -88,6 +88,9 @@ def unique_def(amap, name):
     ent = amap.get(name)
     if not ent or any(v is None for _, v in ent):
         return None
+    # x = <expr>; x = float(x): the value of the first, re-typed
+    ent = [(st, v) for st, v in ent if not (isinstance(v, ast.Call) and isinstance(v.func, ast.Name) and v.func.id in ("int", "float") and len(v.args) == 1
+                                             and isinstance(v.args[0], ast.Name) and v.args[0].id == name)] or ent
     d0 = dump(ent[0][1])
     if all(dump(v) == d0 for _, v in ent[1:]):
         return ent[0][1]
@@ -334,6 +337,23 @@ def kwarg(call, name, pos=None):
     return None
 
 
+def call_keywords(prog, fi, call):
+    """({keyword: value expression}, complete) of a call, option dictionaries spread with `**` written out (dict_items_of); an entry
+    that may be left out keeps the form `v if <test> else __callee_default__`; complete is False when a spread could not be written out"""
+    out, complete = {}, True
+    for k in call.keywords:
+        if k.arg is not None:
+            out[k.arg] = k.value
+            continue
+        items = dict_items_of(prog, fi, expr_at(fi, call, k.value))
+        if items is None:
+            complete = False
+            continue
+        for name, v in items:
+            out[name] = v
+    return out, complete
+
+
 def kwargs_open(call):
     """the call hands over keywords (or positions) that are not written at the call: f(**opts), f(*args) - `kwarg()` not finding a
     keyword there does not mean it is not passed"""
@@ -403,8 +423,25 @@ class OneOf:
         return hash(tuple(sorted(map(repr, self.vals))))
 
 
+class _NotNoneT:
+    """marks a name that holds an object which is certainly not None (an array just built, a display): decides `x is None` only"""
+
+    def __repr__(self):
+        return "<not None>"
+
+
+NOT_NONE = _NotNoneT()
+_NEVER_NONE_CALLS = {"full", "zeros", "ones", "empty", "asarray", "array", "arange", "atleast_1d", "atleast_2d", "list", "tuple", "dict", "int", "float", "str",
+                     "len", "zeros_like", "ones_like", "empty_like", "full_like", "linspace", "reshape", "ravel", "flatten", "astype", "copy", "sorted", "set"}
+
+
 def const_test(e, consts):
     """evaluate a test expression under known constants; _UNDEC if it cannot be decided"""
+    if isinstance(e, ast.Compare) and len(e.ops) == 1 and isinstance(e.ops[0], (ast.Is, ast.IsNot)) and isinstance(e.comparators[0], ast.Constant) \
+            and e.comparators[0].value is None and isinstance(e.left, ast.Name) and consts.get(e.left.id) is NOT_NONE:
+        return isinstance(e.ops[0], ast.IsNot)
+    if any(v is NOT_NONE for v in consts.values()):
+        consts = {k: v for k, v in consts.items() if v is not NOT_NONE}
     alts = [k for k, v in consts.items() if isinstance(v, OneOf)]
     if alts and any(isinstance(n, ast.Name) and n.id in alts for n in ast.walk(e)):
         # decided when every alternative gives the same answer
@@ -1283,19 +1320,50 @@ _PRUNE_SUBST = False
 _PRUNE_FI = None
 
 
-def const_call(fi, call, consts):
-    """_const_call for a call written in function fi"""
+def const_call(fi, call, consts, numbers=False):
+    """_const_call for a call written in function fi (numbers: a numeric constant counts as a result too)"""
     global _PRUNE_FI
-    old = _PRUNE_FI
+    old = _PRUNE_FI, _CONST_CALL_NUMBERS[0]
     _PRUNE_FI = fi
+    _CONST_CALL_NUMBERS[0] = numbers
     try:
         return _const_call(call, consts)
     finally:
-        _PRUNE_FI = old
+        _PRUNE_FI, _CONST_CALL_NUMBERS[0] = old
 
 
 _INT_VALUED = {"argmin", "argmax", "nanargmin", "nanargmax", "len", "searchsorted", "index", "count_nonzero", "argsort", "flatnonzero"}
-_ARRAY_OF = {"asarray", "asanyarray", "ascontiguousarray", "asfarray"}
+_ARRAY_OF = {"asarray", "asanyarray", "ascontiguousarray", "asfarray", "atleast_1d"}
+
+
+def retyped_param(fi, x, pname):
+    """x is the parameter pname of fi, possibly after conversions of type / container that keep every value (int(p), list(p),
+    [int(o) for o in p], np.atleast_1d(p), a local name given such values on every path): True; False when x is made of something
+    else; None when it cannot be told"""
+    x = uncoerce(x)
+    if isinstance(x, ast.Name) and x.id == pname:
+        return True
+    names = {n.id for n in ast.walk(x) if isinstance(n, ast.Name)} - {"np", "numpy", "int", "float", "list", "tuple"}
+    if not names:
+        return None
+    params = set(params_of(fi.node)[0] + params_of(fi.node)[1])
+    dep = _depends_on(fi.node, {pname}, data_only=True) | {pname}
+    if names <= dep and not (names & (params - {pname})):
+        # made of pname only: every assignment on the way must be a value-keeping conversion
+        amap = assignments(fi)
+        for nm in names - {pname}:
+            for st, v in amap.get(nm, []):
+                if v is None:
+                    return None
+                vv = uncoerce(v)
+                ok = isinstance(vv, ast.Name) or (isinstance(vv, ast.Call) and src(vv.func).split(".")[-1] in ("int", "float", "list", "tuple", "asarray", "array", "atleast_1d", "ravel", "reshape", "tolist", "astype")) \
+                    or isinstance(vv, (ast.ListComp, ast.IfExp))
+                if not ok:
+                    return None
+        return True
+    if not (names & dep):
+        return False
+    return None
 
 
 class _Uncoerce(ast.NodeTransformer):
@@ -1354,6 +1422,9 @@ def keeps_labels(fi, e, pname, labels):
 _CONST_CALL_DEPTH = [0]
 
 
+_CONST_CALL_NUMBERS = [False]
+
+
 def _const_call(call, consts):
     """value of `helper(label, ..)` when every argument is a known constant and the helper - a function of the package, specialised
     to those constants - returns one and the same constant on every path that returns (a label normalised through a table of
@@ -1403,7 +1474,9 @@ def _const_call(call, consts):
             stack.extend(getattr(st, f_, []) or [])
         for h in getattr(st, "handlers", []) or []:
             stack.extend(h.body)
-    if not vals or any(repr(v) != repr(vals[0]) for v in vals) or not (vals[0] is None or isinstance(vals[0], (str, bool))):
+    if not vals or any(repr(v) != repr(vals[0]) for v in vals):
+        return _UNDEC
+    if not (vals[0] is None or isinstance(vals[0], (str, bool)) or (_CONST_CALL_NUMBERS[0] and isinstance(vals[0], (int, float)))):
         return _UNDEC
     return vals[0]
 
@@ -1445,6 +1518,9 @@ def _prune(body, consts):
                 consts[nm] = s.value.value          # a label / flag set to a literal
             elif isinstance(s.value, ast.Call) and s.value.args and consts and _const_call(s.value, consts) is not _UNDEC:
                 consts[nm] = _const_call(s.value, consts)     # a label passed through a helper that gives a constant for it
+            elif isinstance(s.value, (ast.List, ast.Tuple, ast.Dict, ast.ListComp, ast.DictComp, ast.Set)) or \
+                    (isinstance(s.value, ast.Call) and src(s.value.func).split(".")[-1] in _NEVER_NONE_CALLS):
+                consts[nm] = NOT_NONE                          # an object just built: `nm is None` is false from here on
             else:
                 consts.pop(nm, None)
         elif isinstance(s, (ast.Assign, ast.AugAssign, ast.AnnAssign, ast.For, ast.With)) or isinstance(s, ast.Delete):
@@ -3064,8 +3140,8 @@ def _depends_on(fn, seeds, data_only=False):
                 continue
             for t in tg:
                 for x in ast.walk(t):
-                    if isinstance(x, ast.Name) and x.id not in dep:
-                        dep.add(x.id)
+                    if isinstance(x, ast.Name) and isinstance(x.ctx, ast.Store) and x.id not in dep:
+                        dep.add(x.id)           # (a name that is bound; `self` in `self.x = v` is only read)
                         changed = True
     return dep
 
@@ -3220,3 +3296,44 @@ def inherited_dtype_rule(prog, run, rule, quals):
                    witness=src(st, 60), file=f, node=bad if bad is not None else st)
     if not n:
         run.ob(rule, quals[0] if quals else "-", "inherited dtypes", True, "no result table takes its dtype from an argument converted without a dtype")
+
+
+# ----------------------------------------------------------------------------- orientation guessed from one extent
+def orientation_guess_rule(prog, run, rule, quals):
+    """`if X.shape[1] == n: X = X.T` turns an array given the other way round - and also one that is square and already the right
+    way round (both extents equal n).  Sound only with the other extent excluded (`X.shape[0] != n and X.shape[1] == n`)."""
+    from .program import rel
+    n = 0
+    for q in quals:
+        fi = prog.functions.get(q)
+        if fi is None:
+            continue
+        f = rel(prog.mods[fi.mod].path)
+        for ifn in ast.walk(fi.node):
+            if not isinstance(ifn, ast.If):
+                continue
+            tr = [s_ for s_ in ifn.body if isinstance(s_, ast.Assign) and len(s_.targets) == 1 and isinstance(s_.targets[0], ast.Name) and (
+                (isinstance(s_.value, ast.Attribute) and s_.value.attr == "T" and isinstance(s_.value.value, ast.Name) and s_.value.value.id == s_.targets[0].id) or
+                (isinstance(s_.value, ast.Call) and isinstance(s_.value.func, ast.Attribute) and s_.value.func.attr == "transpose" and not s_.value.args
+                 and isinstance(s_.value.func.value, ast.Name) and s_.value.func.value.id == s_.targets[0].id))]
+            if not tr:
+                continue
+            X = tr[0].targets[0].id
+            comps = [c for c in ast.walk(ifn.test) if isinstance(c, ast.Compare) and len(c.ops) == 1]
+
+            def extent(e, k):
+                return isinstance(e, ast.Subscript) and isinstance(e.value, ast.Attribute) and e.value.attr == "shape" and isinstance(e.value.value, ast.Name) \
+                    and e.value.value.id == X and src(e.slice) in k
+            eq_last = [c for c in comps if isinstance(c.ops[0], ast.Eq) and (extent(c.left, ("1", "-1")) or extent(c.comparators[0], ("1", "-1")))]
+            if not eq_last:
+                continue
+            other = eq_last[0].comparators[0] if extent(eq_last[0].left, ("1", "-1")) else eq_last[0].left
+            excl = [c for c in comps if isinstance(c.ops[0], ast.NotEq) and (extent(c.left, ("0",)) or extent(c.comparators[0], ("0",)))
+                    and dump(c.comparators[0] if extent(c.left, ("0",)) else c.left) == dump(other)]
+            n += 1
+            run.ob(rule, fi.qual, f"`{X}` is turned only when it is the other way round", bool(excl),
+                   f"`if {src(ifn.test, 60)}: {src(tr[0], 30)}`" + ("" if excl else f": for a square `{X}` (both extents equal `{src(other, 30)}`) the test is true as well - an array that "
+                                                                    f"is already the right way round is transposed, silently"),
+                   witness=src(ifn.test, 60), file=f, node=ifn)
+    if not n:
+        run.ob(rule, quals[0] if quals else "-", "orientation guesses", True, "no array is transposed on the strength of one of its extents")
